@@ -65,6 +65,17 @@ CLAIMS["C03"] = {
     "note": "Trusted: Kani/CBMC; the symbolic repository (merge_base contract) and the 1-byte id abstraction; the 4-slot map model. The function body of quorum is /repo's.",
 }
 
+CLAIMS["C19"] = {
+    "technique": _T + " of the validation kernel (Delegates::new, Threshold::new, Version::new) through the public API",
+    "text": "The solver shows for every u32 that exactly versions 1..=IDENTITY_VERSION are accepted, and for every usize threshold and every equality pattern of up to 4 delegate entries over 3 keys that Delegates::new rejects only the empty list and keeps exactly the distinct delegates (first occurrence first), and that Threshold::new accepts exactly 1..=#delegates. This is the kernel every decoding path funnels through (TryFrom<RawDoc>); JSON decoding, canonical encoding and the repository-id hash are outside.",
+    "note": "Trusted: Kani/CBMC. Partial claim: validation kernel only; keys concrete with enumerated equality patterns; the 255-delegate limit is not reached.",
+}
+CLAIMS["C21"] = {
+    "technique": _T + " of Alias::from_str on fully symbolic bytes filtered by the real UTF-8 validator",
+    "text": "For every string of 1, 2 (thorough: 3) bytes the solver shows that parsing an alias never panics, that an accepted alias prints to exactly the input and re-parses to itself, that empty input and ASCII control / white-space bytes are rejected and that printable ASCII is accepted. Partial claim: aliases only.",
+    "note": "Trusted: Kani/CBMC. Keys, DIDs, repository ids and user agents are outside (see evidence.outside_claim).",
+}
+
 NOT_APPLICABLE = {
     "C01": "post-fetch refdb contents vs signed refs: decided inside FetchState::run over gix transport, libgit2 ref transactions and ed25519 signatures (FFI / curve arithmetic) - not encodable for CBMC/SMT within reach (DESIGN §7)",
     "C02": "threshold gate and Behind/Diverged handling are statements inside FetchState::run between git I/O calls; no function boundary to drive symbolically (DESIGN §7)",
